@@ -337,6 +337,10 @@ func (s *netSim) corruptWire(raw []byte, kind string) []byte {
 			s.r.out.Faults["wire_nonminimal_varint"]++
 			return nm
 		}
+		if nm, ok := nonMinimalExtensible(c); ok && kind == "consensus" {
+			s.r.out.Faults["wire_nonminimal_varint_extensible"]++
+			return nm
+		}
 		c[pos(len(c))] ^= 0x80
 		s.r.out.Faults["wire_bitflip"]++
 	}
@@ -364,6 +368,41 @@ func nonMinimalTx(msg []byte) ([]byte, bool) {
 		return nil, false
 	}
 	out := []byte{0, byte(network.CMDTX), byte(len(nb))}
+	return append(out, nb...), true
+}
+
+// nonMinimalExtensible re-encodes the category length of an uncompressed extensible message as a 3-byte varint:
+// the same content (and a still valid witness, the signed hash is over the content) in another wire form.
+func nonMinimalExtensible(msg []byte) ([]byte, bool) {
+	if len(msg) < 40 || msg[0] != 0 || msg[1] != byte(network.CMDExtensible) {
+		return nil, false
+	}
+	var body []byte
+	switch {
+	case msg[2] < 0xfd:
+		body = msg[3:]
+		if len(body) != int(msg[2]) {
+			return nil, false
+		}
+	case msg[2] == 0xfd:
+		body = msg[5:]
+		if len(body) != int(msg[3])|int(msg[4])<<8 {
+			return nil, false
+		}
+	default:
+		return nil, false
+	}
+	if body[0] >= 0xfd {
+		return nil, false
+	}
+	nb := []byte{0xfd, body[0], 0x00}
+	nb = append(nb, body[1:]...)
+	out := []byte{0, byte(network.CMDExtensible)}
+	if len(nb) < 0xfd {
+		out = append(out, byte(len(nb)))
+	} else {
+		out = append(out, 0xfd, byte(len(nb)), byte(len(nb)>>8))
+	}
 	return append(out, nb...), true
 }
 
